@@ -1941,9 +1941,9 @@ def check_gauss_case(ctx, c):
     Lam = P @ np.swapaxes(P, -1, -2)
     info = (P @ wv[..., None])[..., 0]
     if c["noise"] == "particles":
-        si = OrderedDict(p=Bint[2])
+        si = OrderedDict(p=Bint[1 + c["seed"] % 3])                         # sizes 1-3 (a single particle too)
     elif c["noise"] == "particles2":
-        si = OrderedDict(p=Bint[2], q=Bint[2])
+        si = OrderedDict(p=Bint[1 + c["seed"] % 3], q=Bint[1 + (c["seed"] // 3) % 2])
     elif c["noise"] == "lazy":
         si = OrderedDict(noise=Reals[ishape + (da,)])
     else:
@@ -2022,8 +2022,9 @@ def check_gauss_case(ctx, c):
                  got=str(e))
         return
     # inputs/output
-    want_inputs = set(inputs) | set(si)
-    if set(s0.inputs) != want_inputs or s0.output != Real:
+    want_inputs = dict(inputs)
+    want_inputs.update(si)
+    if dict(s0.inputs) != want_inputs or s0.output != Real:
         ctx.fail("input", "C14.gauss-sample-inputs", witness=wit, python=gpy, expected=str(sorted(want_inputs)),
                  got=str(sorted(s0.inputs)))
         return
@@ -2146,7 +2147,7 @@ def gen_mixture_case(rng):
     if rng.random() < 0.5:        # the classic request: one shared discrete variable (+ the reals)
         shared = [n for n in inames if member[n] == "both"] or [n for n in inames if member[n] == "T"]
         sampled = sorted(set([rng.choice(shared)] + (rnames if rng.random() < 0.5 else [])))
-    particles = rng.choice([0, 0, 2, 3])
+    particles = rng.choice([0, 1, 1, 2, 3])
     t_order = [n for n in inames if member[n] in ("T", "both")]
     g_order = [n for n in inames if member[n] in ("G", "both")] + rnames
     rng.shuffle(t_order)
@@ -2222,8 +2223,9 @@ def check_mixture_case(ctx, c):
     if smp is mix:
         ctx.count("mixture:no-progress")
         return
-    want_inputs = set(mix.inputs) | set(si)
-    if set(smp.inputs) != want_inputs or smp.output != Real:
+    want_inputs = dict(mix.inputs)
+    want_inputs.update(si)
+    if dict(smp.inputs) != want_inputs or smp.output != Real:
         w = dict(wit)
         w["problem"] = "inputs/output of the sample of a mixture"
         ctx.fail("input", "C14.mixture-inputs", witness=w, expected=str(sorted(want_inputs)),
@@ -2387,7 +2389,7 @@ def gen_mc_case(rng):
         calls[-1][0] = sorted(rng.sample(t_vis, rng.randint(1, len(t_vis) - 1)) + reals)
     if rng.random() < 0.5:
         rng.shuffle(calls)
-    particles = rng.choice([0, 2, 2, 3])
+    particles = rng.choice([0, 1, 1, 2, 3])
     collide = particles and inames and rng.random() < 0.15
     return dict(kind=kind, isize=isize, member=member, rshape={k: list(v) for k, v in rshape.items()},
                 calls=calls, particles=particles, seed=rng.randrange(2 ** 31),
@@ -2550,13 +2552,15 @@ def check_mc_case(ctx, c):
             ctx.fail("input", "C14.mc-inputs", witness=w, expected=str([n for n, _ in order]), got=str(sorted(r.inputs)),
                      python=py)
             return
-        if fk in ("one", "approx", "support", "holes"):
-            # the mass depends on every free integer input and the result is batched over every sample input
-            if fk != "holes" and [n for n, _ in eff_si if n not in r.inputs]:
-                w["problem"] = f"call {t} ({fk} over {S}): sample inputs missing from the result"
-                ctx.fail("input", "C14.mc-inputs", witness=w, expected=str([n for n, _ in order]),
-                         got=str(sorted(r.inputs)), python=py)
-                return
+        # exact inputs: every requested sample input (with its size, a single particle included) is an input of the
+        # result; the approximation itself has exactly the measure's inputs plus the sample inputs
+        got_in = {n: int(d.size) for n, d in r.inputs.items() if d.dtype != "real"}
+        if any(got_in.get(n) != k for n, k in eff_si) or (
+                fk == "approx" and set(r.inputs) != set(m.inputs) | {n for n, _ in eff_si}):
+            w["problem"] = (f"call {t} ({fk} over {S}): the result must carry every requested sample input "
+                            f"{eff_si} (one entry per particle)")
+            ctx.fail("input", "C14.mc-inputs", witness=w, expected=str(eff_si), got=str(sorted(r.inputs.items())), python=py)
+            return
         if tab is None:
             ctx.count("mc:lazy-result")
             continue
